@@ -70,14 +70,6 @@ func (g *schemaGenerator) generateRootType() error {
 }
 
 func (g *schemaGenerator) generateReferencedType(t *schemas.Type) (codegen.Type, error) {
-	if schemaOutput, ok := g.outputs[g.schema.ID]; ok {
-		if decl, ok := schemaOutput.declsByName[t.Ref]; ok {
-			if decl != nil {
-				return decl.Type, nil
-			}
-		}
-	}
-
 	if t.Ref == "#" {
 		// A reference to the document root: use the root type's declaration, which
 		// is registered before its fields are generated. It is necessarily a
